@@ -1254,6 +1254,71 @@ def subst(x: RF, mapping: dict) -> RF:
     return rf_sub(x)
 
 
+def unwrap(x: RF, fname: str = "sg") -> RF:
+    """replace every application fname(a) by a (stop-gradient ghost -> identity)"""
+    cache = {}
+
+    def atom_sub(i) -> RF:
+        if i in cache:
+            return cache[i]
+        kind, payload = ATOMS.atoms[i]
+        if kind in ("var", "e", "logc", "cpow"):
+            r = atom_rf(i)
+        elif kind == "exp":
+            mono, den = _FN_ARGS[i]
+            a = mono_sub(mono)
+            if den is not None:
+                a = a / poly_sub(den)
+            r = rexp(a)
+        elif kind == "log":
+            r = rlog(rf_sub(_FN_ARGS[i][0]))
+        elif kind == "root":
+            r = None
+        elif kind == "fn":
+            name, _ = payload
+            args = [rf_sub(a) if isinstance(a, RF) else a for a in _FN_ARGS[i]]
+            if name == fname:
+                r = args[0]
+            elif name == "lgamma":
+                r = rlgamma(args[0])
+            else:
+                r = ufn(name, *args, positive=ATOMS.positive[i], nonneg=ATOMS.nonneg[i])
+        else:
+            raise KeyError(kind)
+        cache[i] = r
+        return r
+
+    def mono_sub(m) -> RF:
+        r = ONE
+        for i, e in m:
+            if ATOMS.atoms[i][0] == "root":
+                r = r * rpow(rf_sub(_FN_ARGS[i][0]), e)
+                continue
+            a = atom_sub(i)
+            if isinstance(e, int) or e.denominator == 1:
+                r = r * a ** int(e)
+            else:
+                r = r * rpow(a, e)
+        return r
+
+    def poly_sub(p) -> RF:
+        s_ = ZERO
+        for m, c in p.t.items():
+            s_ = s_ + mono_sub(m) * c
+        return s_
+
+    def rf_sub(r) -> RF:
+        if r.d.is_one():
+            return poly_sub(r.n)
+        return poly_sub(r.n) / poly_sub(r.d)
+
+    return rf_sub(x)
+
+
+def has_fn(x: RF, fname: str) -> bool:
+    return any(ATOMS.atoms[i][0] == "fn" and ATOMS.atoms[i][1][0] == fname for i in all_atoms(x))
+
+
 def diff(x: RF, vname: str) -> RF:
     """∂x/∂v for variable v (chain rule through atoms)."""
     cache = {}
